@@ -126,25 +126,25 @@ def motion_notify_rule(ctx, cg=None):
 def run(ctx):
     from ..shared import snapshot_rule as _snapshot_rule
 
-    _snapshot_rule(ctx, "R14.18", scope=lambda ci: ci.module.name.startswith(("EasyFEA.Models", "EasyFEA.Simulations")))
+    ctx.attempt(_snapshot_rule, ctx, "R14.18", scope=lambda ci: ci.module.name.startswith(("EasyFEA.Models", "EasyFEA.Simulations")))
     from ..shared import flag_pair_rule as _flag_pair_rule
 
-    _flag_pair_rule(ctx, "R14.16", scope=lambda f, _s=("EasyFEA.FEM", "EasyFEA.Simulations", "EasyFEA.Models"): f.module.name.startswith(_s), min_instances=1)
+    ctx.attempt(_flag_pair_rule, ctx, "R14.16", scope=lambda f, _s=("EasyFEA.FEM", "EasyFEA.Simulations", "EasyFEA.Models"): f.module.name.startswith(_s), min_instances=1)
     from ..shared import group_loop_leak_rule as _group_loop_leak_rule
 
-    _group_loop_leak_rule(ctx, "R14.15", scope=lambda f, _s=("EasyFEA.Simulations",): f.module.name.startswith(_s), min_instances=8)
+    ctx.attempt(_group_loop_leak_rule, ctx, "R14.15", scope=lambda f, _s=("EasyFEA.Simulations",): f.module.name.startswith(_s), min_instances=8)
     from ..shared import group_loop_rule as _group_loop_rule
 
-    _group_loop_rule(ctx, "R14.14", scope=lambda f, _s=("EasyFEA.FEM._mesh", "EasyFEA.Simulations"): f.module.name.startswith(_s), min_instances=10)
+    ctx.attempt(_group_loop_rule, ctx, "R14.14", scope=lambda f, _s=("EasyFEA.FEM._mesh", "EasyFEA.Simulations"): f.module.name.startswith(_s), min_instances=10)
     from ..shared import copy_out_rule as _copy_out_rule
 
-    _copy_out_rule(ctx, "R14.13", ["Get_K_C_M_F"], "EasyFEA.Simulations._simu._Simu")
+    ctx.attempt(_copy_out_rule, ctx, "R14.13", ["Get_K_C_M_F"], "EasyFEA.Simulations._simu._Simu")
     from ..shared import state_alias_rule as _state_alias_rule
 
-    _state_alias_rule(ctx, "R14.11", scope=lambda f, _s=("EasyFEA.FEM", "EasyFEA.Simulations", "EasyFEA.Models"): f.module.name.startswith(_s), min_instances=500)
+    ctx.attempt(_state_alias_rule, ctx, "R14.11", scope=lambda f, _s=("EasyFEA.FEM", "EasyFEA.Simulations", "EasyFEA.Models"): f.module.name.startswith(_s), min_instances=500)
     from ..shared import shared_container_rule as _shared_container_rule
 
-    _shared_container_rule(ctx, "R14.12", scope=lambda f, _s=("EasyFEA.FEM", "EasyFEA.Simulations", "EasyFEA.Models"): f.module.name.startswith(_s), min_instances=500)
+    ctx.attempt(_shared_container_rule, ctx, "R14.12", scope=lambda f, _s=("EasyFEA.FEM", "EasyFEA.Simulations", "EasyFEA.Models"): f.module.name.startswith(_s), min_instances=500)
     repo = ctx.repo
     ctx.level = "other"
     ctx.explanation = (
@@ -322,7 +322,7 @@ def run(ctx):
         else:
             r5.fail(f.qualname, "flag", f.file, f.lineno, f"{ci.name}.Get_K_C_M_F", "does not (assemble when the flag is set, then clear it)")
     staggered_flags_rule(ctx, simu)
-    mesh_index_rule(ctx)
+    ctx.attempt(mesh_index_rule, ctx)
 
 
 def staggered_flags_rule(ctx, simu):
